@@ -64,3 +64,23 @@
 ;@unfold
 (define-fun unfold_numexp ((d (Array Int Int)) (o Int) (k Int)) Bool (= (numexp d o k)
   (ite (<= k 0) 0 (ite (or (= (numrun d o k) 8) (= (numrun d o k) 12)) (+ (* 10 (numexp d o (- k 1))) (- (select d (+ o (- k 1))) 48)) (ite (or (= (numrun d o k) 9)) (numexp d o (- k 1)) 0)))))
+; ---- the value denoted by a number text: sign, mantissa digits M, fraction digit count, signed exponent ----
+(declare-fun mantval ((Array Int Int) Int Int) Int)
+;@unfold
+(define-fun unfold_mantval ((d (Array Int Int)) (o Int) (k Int)) Bool (= (mantval d o k)
+  (ite (<= k 0) 0 (ite (and (not (mantstop d o k)) (isdig (select d (+ o (- k 1))))) (+ (* 10 (mantval d o (- k 1))) (- (select d (+ o (- k 1))) 48)) (mantval d o (- k 1))))))
+(declare-fun fracd ((Array Int Int) Int Int) Int)
+;@unfold
+(define-fun unfold_fracd ((d (Array Int Int)) (o Int) (k Int)) Bool (= (fracd d o k)
+  (ite (<= k 0) 0 (ite (= (numrun d o k) 5) (+ (fracd d o (- k 1)) 1) (ite (or (= (numrun d o k) 6) (= (numrun d o k) 7) (= (numrun d o k) 8) (= (numrun d o k) 9)) (fracd d o (- k 1)) 0)))))
+(declare-fun expneg ((Array Int Int) Int Int) Bool)
+;@unfold
+(define-fun unfold_expneg ((d (Array Int Int)) (o Int) (k Int)) Bool (= (expneg d o k)
+  (and (> k 0) (ite (= (numrun d o k) 7) (= (select d (+ o (- k 1))) 45) (and (or (= (numrun d o k) 8) (= (numrun d o k) 9)) (expneg d o (- k 1)))))))
+;@lemma
+(define-fun mantval_nonneg ((d (Array Int Int)) (o Int) (k Int)) Bool (and (>= (mantval d o k) 0) (>= (fracd d o k) 0)))
+;@lemma once the mantissa is over its value is frozen
+(define-fun mantval_stable ((d (Array Int Int)) (o Int) (k Int) (m Int)) Bool
+  (=> (and (<= 0 k) (<= k m) (mantstop d o k)) (= (mantval d o m) (mantval d o k))))
+; the text's value written as  M * 10^-s  with  s = fraction digits - signed exponent
+(define-fun textscale ((d (Array Int Int)) (o Int) (k Int)) Int (- (fracd d o k) (ite (expneg d o k) (- (numexp d o k)) (numexp d o k))))
